@@ -537,3 +537,59 @@ func uploadOffset64(r *Report, rule string) {
 	}
 	r.Sentinel(rule+".upload-offset", n, 1)
 }
+
+// pieceSizeProducts64: a product with the piece size is a byte offset into the torrent, which exceeds 32 bits for
+// torrents of 4 GiB and more: every integer multiplication one factor of which is Pieces.PieceSize() (or the
+// pieceSize field), through conversions, is evaluated in a 64-bit type. `int64(index*PieceSize()+offset)` wraps
+// before it is widened and maps the request to the wrong bytes of the wrong file.
+// (shared by C14 — web-seed ranges — and C01/C16 — uploads.)
+func pieceSizeProducts64(r *Report, rule string) {
+	p := r.P
+	ps := p.Func("tor/piece", "Pieces.PieceSize")
+	psF := p.Field("tor/piece", "Pieces", "pieceSize")
+	if !r.Anchor(rule, "piece.(*Pieces).PieceSize", ps != nil) {
+		return
+	}
+	isPS := func(v ssa.Value) bool {
+		for i := 0; i < 4; i++ {
+			switch x := v.(type) {
+			case *ssa.Convert:
+				v = x.X
+				continue
+			case *ssa.ChangeType:
+				v = x.X
+				continue
+			}
+			break
+		}
+		if c, ok := v.(*ssa.Call); ok && c.Call.StaticCallee() == ps {
+			return true
+		}
+		if fv, _ := loadedField(v); fv != nil && fv == psF {
+			return true
+		}
+		return false
+	}
+	n := 0
+	for _, f := range p.SrcFuncs() {
+		switch relPkg(f) {
+		case "tor", "peer", "tor/piece", "http", "fuse", "webseed":
+		default:
+			continue
+		}
+		allInstrs(f, func(in ssa.Instruction) {
+			bo, ok := in.(*ssa.BinOp)
+			if !ok || bo.Op != token.MUL || !isInteger(bo.Type()) {
+				return
+			}
+			if !isPS(bo.X) && !isPS(bo.Y) {
+				return
+			}
+			n++
+			r.Fn(f)
+			r.Check(intBits(bo.Type()) >= 64, rule, fname(f)+"/piece-size-product-64bit", bo.Pos(), "the product with the piece size is computed in 64 bits",
+				"the byte offset "+exprStr(bo)+" is computed in a "+bo.Type().String()+": beyond 4 GiB it wraps (before any widening), and the range is mapped to the wrong bytes of the wrong file / the wrong piece")
+		})
+	}
+	r.Sentinel(rule+".piece-size-products", n, 2)
+}
